@@ -16,7 +16,7 @@ static _Bool s_exists(int y, unsigned m, unsigned d) { return y >= -32767 && y <
 #define ZMIN (-12687428)   /* -32767-01-01 */
 #define ZMAX 11248737      /*  32767-12-31 */
 
-/*@GROUP name=spec_is_gregorian props=C11 kind=F solver=kissat timeout=900 cost=9@*/
+/*@GROUP name=spec_is_gregorian props=C11 kind=F solver=kissat timeout=1500 cost=9 tier=thorough@*/
 void h_spec_is_gregorian(void) { VF_INPUT(short, y); VF_INPUT(unsigned char, m); VF_INPUT(unsigned char, d); __CPROVER_assume(s_exists(y, m, d));
   VF_ASSERT(spec_days(1970, 1, 1) == 0 && spec_days(2000, 3, 1) == 11017 && spec_days(-32767, 1, 1) == ZMIN && spec_days(32767, 12, 31) == ZMAX, "spec: anchors (1970-01-01 is day 0)");
   int ny = y; unsigned nm = m, nd = d + 1u; if (nd > s_last(y, m)) { nd = 1; nm = m + 1u; if (nm > 12) { nm = 1; ny = y + 1; } }
